@@ -70,6 +70,45 @@ func (fr *frame) callWithArgs(st *state, c *ssa.CallCommon, instr ssa.Instructio
 			}
 		}
 	}
+	if len(fr.fc.c.At) > 0 && fr.top && instr != nil {
+		// a key that ends in "(" names every call whose text starts with it; its clauses may mention the call's
+		// arguments as arg0, arg1, ...
+		for key, cls := range fr.fc.c.At {
+			if !strings.HasSuffix(key, "(") || !strings.HasPrefix(text, key) {
+				continue
+			}
+			if fr.fc.atHit == nil {
+				fr.fc.atHit = map[string]bool{}
+			}
+			fr.fc.atHit[key] = true
+			env := fr.specEnv(st, fr.old)
+			fr.lexPos = pos
+			env.vars = fr.shadowed(env.vars, instr.Block())
+			fr.lexPos = token.NoPos
+			fr.evalBlock = instr.Block()
+			fr.evalPos = pos
+			sig := c.Signature()
+			off := 0
+			if sig.Recv() != nil && !c.IsInvoke() {
+				off = 1
+			}
+			for i := 0; i < sig.Params().Len() && i+off < len(args); i++ {
+				pt := sig.Params().At(i).Type()
+				env.vars[fmt.Sprintf("arg%d", i)] = TV{T: args[i+off], Sort: fr.fc.e.u.sortOf(pt), Typ: pt}
+			}
+			for i, cl := range cls {
+				label := cl.Label
+				if label == "" {
+					label = fmt.Sprintf("c%d", i+1)
+				}
+				if t, ok := fr.evalClause(env, cl.Expr, cl.Src); ok {
+					fr.oblige(st, "at", text+"."+label, pos, t, cl.Src)
+				} else {
+					fr.oblige(st, "at", text+"."+label+".attach", pos, "false", "the clause "+cl.Src+" names something that is not in scope at this call: it cannot be checked")
+				}
+			}
+		}
+	}
 	if len(fr.fc.c.At) > 0 {
 		if cls, ok := fr.fc.c.At[text]; ok && instr != nil {
 			if fr.fc.atHit == nil {
@@ -77,7 +116,9 @@ func (fr *frame) callWithArgs(st *state, c *ssa.CallCommon, instr ssa.Instructio
 			}
 			fr.fc.atHit[text] = true
 			env := fr.specEnv(st, fr.old)
+			fr.lexPos = pos
 			env.vars = fr.shadowed(env.vars, instr.Block())
+			fr.lexPos = token.NoPos
 			fr.evalBlock = instr.Block()
 			fr.evalPos = pos
 			for i, cl := range cls {
@@ -94,13 +135,18 @@ func (fr *frame) callWithArgs(st *state, c *ssa.CallCommon, instr ssa.Instructio
 		}
 	}
 	res := fr.callWithArgs1(st, c, instr, pos, args)
+	if fr.top && instr != nil && fr.fc.calledRefs[text] {
+		st.heap[calledKey(text)] = "true"
+	}
 	if cls, ok := fr.fc.c.After[text]; ok && instr != nil {
 		if fr.fc.atHit == nil {
 			fr.fc.atHit = map[string]bool{}
 		}
 		fr.fc.atHit["after:"+text] = true
 		env := fr.specEnv(st, fr.old)
+		fr.lexPos = pos
 		env.vars = fr.shadowed(env.vars, instr.Block())
+		fr.lexPos = token.NoPos
 		sig := c.Signature()
 		for i := 0; i < sig.Results().Len() && i < len(res); i++ {
 			rt := sig.Results().At(i).Type()
@@ -161,6 +207,15 @@ func (fr *frame) callWithArgs1(st *state, c *ssa.CallCommon, instr ssa.Instructi
 	case *ssa.Function:
 		if e.isRepoFn(cv) {
 			return fr.callRepo(st, cv, nil, c, pos, args)
+		}
+		// the address of a field handed to a function outside the repository (sync/atomic, fmt.Sscan, ...) may be
+		// written through: for the frame of shared objects (fieldframe) it counts as a store
+		for _, a := range c.Args {
+			if fa, ok := a.(*ssa.FieldAddr); ok {
+				if l, ok := fr.locs[fa]; ok && l != nil {
+					fr.fieldFrame(st, l, pos)
+				}
+			}
 		}
 		return fr.external(st, cv, c, pos, args)
 	case *ssa.MakeClosure:
